@@ -377,7 +377,7 @@ def _creator_info_xml_element(hash_list: MHLHashList):
             author_element.attrib["email"] = author.email
         if author.phone != None:
             author_element.attrib["phone"] = author.phone
-        if author.name != None and author.name != "-":
+        if author.name != None:
             author_element.text = author.name
         info_element.append(author_element)
 
